@@ -16,7 +16,7 @@ RULE = ("chains (depth 1..3 quick, ..4 thorough) of Prefixed(Byte|Int16ub|VarInt
         "GreedyBytes, GreedyRange(Byte), Byte, Bytes(2) and the offset probe Struct(Tell, RawCopy, Pointer(this.t0), Tell, GreedyBytes); "
         "start offsets 0..7; payloads incl. empty, terminator/pad units inside and at the end; region lengths exact, zero, and overlong "
         "(must be StreamError). non-trivial = depth >= 2 or start offset > 0; distinct by (chain, probe, offset, payload class)")
-ASSUMPTIONS = ["multi-byte terminator/pad payloads are unit-aligned (Issue 1046 documents unaligned data as undefined)",
+ASSUMPTIONS = ["multi-byte terminator payloads are unit-aligned (Issue 1046 documents unaligned data as undefined); for pad units of one repeated byte an incomplete last unit is padding only if it starts the pad unit",
                "building is observed only for the delimiters that assemble their region on its own (FixedSized, Prefixed): the region is exactly what the inner construct wrote"]
 REQUIRED_ANCHORS = ["core:BytesIOWithOffsets.tell", "core:BytesIOWithOffsets.seek", "core:BytesIOWithOffsets.from_reading", "core:Prefixed._parse",
                     "core:FixedSized._parse", "core:OffsettedEnd._parse", "core:NullTerminated._parse", "core:NullStripped._parse",
